@@ -133,6 +133,20 @@ Theorem C15_rewrite_pattern_without_wildcard : forall r path,
 Proof. exact apply_rule_literal. Qed.
 Print Assumptions C15_rewrite_pattern_without_wildcard.
 
+(** the two models composed: with the location's rules inside the modelled
+    class the path the upstream receives is [rewrite_path rules (client path)];
+    a client path no rule matches reaches the upstream unchanged *)
+Theorem C15_upstream_path_is_rewritten_path : forall rules fetching l acc rq,
+  rq_path (upstream_request (rewrite_path rules) fetching l acc rq) = rewrite_path rules (rq_path rq).
+Proof. intros. reflexivity. Qed.
+
+Theorem C15_unmatched_path_reaches_upstream_unchanged : forall rules fetching l acc rq,
+  Forall (fun r => find_match (r_items r) (rq_path rq) = None) rules ->
+  rq_path (upstream_request (rewrite_path rules) fetching l acc rq) = rq_path rq.
+Proof. intros rules fetching l acc rq H. cbn. apply rewrite_unmatched. exact H. Qed.
+Print Assumptions C15_upstream_path_is_rewritten_path.
+Print Assumptions C15_unmatched_path_reaches_upstream_unchanged.
+
 (** non-vacuity: "/files/*/thumb:/thumbs/$1_small" on "/files/abc/thumb" gives "/thumbs/abc_small" *)
 Example C15_rewrite_nonvacuous :
   let s := fun (l : list nat) => map N.of_nat l in
